@@ -2,7 +2,7 @@
 
 use crate::gen::*;
 use crate::gen2::*;
-use crate::ir::Program;
+use crate::ir::{Op, OpKind, Program};
 use desync_verif_rt::strategy::Rng;
 
 pub struct Family {
@@ -21,6 +21,27 @@ pub const STATE_NAMES: [&str; 8] = ["idle", "pending", "running", "waiting_for_w
 
 fn g_mix(r: &mut Rng) -> Program {
     gen_general(r, &MIX)
+}
+/// The same mixed programs on bare job queues (scheduler-level functions); the harness gives its handle of each queue up at
+/// some point while work may still be queued, running or suspended.
+fn g_raw(r: &mut Rng) -> Program {
+    let mut p = gen_general(r, &RAW);
+    p.raw_objs = (0..p.n_objs).collect();
+    let mut next_id = p.max_op_id() + 1;
+    for o in 0..p.n_objs {
+        if r.permille(700) {
+            let nt = p.phases[0].threads.len();
+            if nt == 0 {
+                continue;
+            }
+            let t = r.below(nt as u64) as usize;
+            // anywhere in the thread: later calls of that object become no-ops only for ops that look the handle up afterwards
+            let pos = r.range(0, p.phases[0].threads[t].len() as u64) as usize;
+            p.phases[0].threads[t].insert(pos, Op { id: next_id, k: OpKind::DropObj { o } });
+            next_id += 1;
+        }
+    }
+    p
 }
 fn g_late(r: &mut Rng) -> Program {
     gen_general(r, &LATE_POLL)
@@ -63,16 +84,21 @@ pub fn for_property(prop: &str) -> Vec<Family> {
     let f = |name, what, gen: fn(&mut Rng) -> Program, q, t| Family { name, what, gen, quick_runs: q, thorough_runs: t, sweep_width: 0, gen_at: None };
     let sw = |name, what, gen: fn(&mut Rng) -> Program, q, t, width| Family { name, what, gen, quick_runs: q, thorough_runs: t, sweep_width: width, gen_at: None };
     match prop {
-        "C01" => vec![f("mix", "all operation kinds over 1..3 objects from 1..4 threads, pool 0..3, yields and awaits inside operations", g_mix, Q, T)],
+        "C01" => vec![
+            f("mix", "all operation kinds over 1..3 objects from 1..4 threads, pool 0..3, yields and awaits inside operations", g_mix, Q * 7 / 8, T * 7 / 8),
+            f("raw-queue", "the same operation kinds on bare job queues through the scheduler-level functions; the harness gives its queue handle up while work is queued, running or suspended (nothing waits for a bare queue: accepted work must still run)", g_raw, Q / 8, T / 8),
+        ],
         "C02" => vec![
-            f("mix", "all operation kinds, all pools", g_mix, Q / 2, T / 2),
+            f("mix", "all operation kinds, all pools", g_mix, Q * 3 / 8, T * 3 / 8),
             f("late-poll", "futures created early and polled late or never while other threads schedule", g_late, Q / 4, T / 4),
             f("drain-steal", "pool 0/1 so that sync callers drain and waiters steal", g_drain, Q / 4, T / 4),
+            f("raw-queue", "the same operation kinds on bare job queues through the scheduler-level functions; the harness gives its queue handle up while work is queued, running or suspended (nothing waits for a bare queue: accepted work must still run)", g_raw, Q / 8, T / 8),
         ],
         "C03" => vec![
             f("background", "only non-blocking scheduling calls; callers leave at once; the queue must run without a kick", g_bg, Q / 2, T / 2),
             f("mix-kick", "sync/try_sync callers and wakers racing with pool threads going dormant", g_kick, Q / 4, T / 4),
-            f("mix", "all operation kinds, all pools", g_mix, Q / 4, T / 4),
+            f("mix", "all operation kinds, all pools", g_mix, Q / 8, T / 8),
+            f("raw-queue", "the same operation kinds on bare job queues through the scheduler-level functions; the harness gives its queue handle up while work is queued, running or suspended (nothing waits for a bare queue: accepted work must still run)", g_raw, Q / 8, T / 8),
         ],
         "C04" => vec![
             f("sync-states", "sync against every queue state, nested sync, saturated and empty pools", g_sync, Q / 2, T / 2),
@@ -93,7 +119,8 @@ pub fn for_property(prop: &str) -> Vec<Family> {
         "C07" => vec![
             f("handles", "future_desync/after handles awaited, polled out of order, .sync()-ed, detached, dropped", g_handles, Q / 2, T / 2),
             f("late-poll", "futures created early and polled late or never while other threads schedule", g_late, Q / 4, T / 4),
-            f("mix", "all operation kinds, all pools", g_mix, Q / 4, T / 4),
+            f("mix", "all operation kinds, all pools", g_mix, Q / 8, T / 8),
+            f("raw-queue", "the same operation kinds on bare job queues through the scheduler-level functions; the harness gives its queue handle up while work is queued, running or suspended (nothing waits for a bare queue: accepted work must still run)", g_raw, Q / 8, T / 8),
         ],
         "C08" => vec![
             f("fsync", "future_sync handles polled, dropped at any point, awaited, nested across objects", g_fsync, Q / 2, T / 2),
